@@ -148,6 +148,7 @@ func runC14(r *Run, verifDir string) {
 	c14G3(r)
 	c14G4(r)
 	c14G5(r)
+	c14G6(r)
 }
 
 // ---------------------------------------------------------------- G1
@@ -865,5 +866,102 @@ func c14G5(r *Run) {
 	}
 	if n == 0 {
 		r.Trivial("C14.G5", "accessors/no-magnitude-panic-calls", token.NoPos, "no accessor calls a magnitude-sensitive math/big routine (FillBytes, Div, Mod, Quo, Rem, DivMod, QuoRem, Sqrt, SetBit)")
+	}
+}
+
+// c14G6: the transport accessors (GetResponsePayload.PrivateKey, .PublicKey, .X509Certificate, ...) find the
+// object's accessor through a type assertion to a structural interface. The assertion and the methods live in
+// different packages; when a method's signature drifts the assertion silently stops matching and the accessor
+// fails for every key. For each assertion of a kmip.Object-typed value to an interface: some object type implements
+// it (when none does, a type that has the method names with another signature is named in the report).
+func c14G6(r *Run) {
+	p := r.P
+	r.Rule("C14.G6", "structural interface assertions on transported objects are satisfied by the object types they name", 6)
+	root := p.Pkg("")
+	if root == nil {
+		r.Unk("C14.G6", "kmip", token.NoPos, "package missing")
+		return
+	}
+	objT, _ := root.Types.Scope().Lookup("Object").(*types.TypeName)
+	if objT == nil {
+		r.Unk("C14.G6", "kmip.Object", token.NoPos, "anchor missing")
+		return
+	}
+	objI, _ := objT.Type().Underlying().(*types.Interface)
+	var impls []types.Type
+	for _, name := range root.Types.Scope().Names() {
+		tn, ok := root.Types.Scope().Lookup(name).(*types.TypeName)
+		if !ok || tn.IsAlias() {
+			continue
+		}
+		if _, isI := tn.Type().Underlying().(*types.Interface); isI {
+			continue
+		}
+		pt := types.NewPointer(tn.Type())
+		if objI != nil && types.Implements(pt, objI) {
+			impls = append(impls, pt)
+		}
+	}
+	n := 0
+	perFn := map[*ssa.Function]int{}
+	for _, fn := range p.OwnFuncs() {
+		if fn.Pkg == nil {
+			continue
+		}
+		rel := relPkg(fn.Pkg.Pkg.Path())
+		if rel != "payloads" && rel != "kmipclient" && rel != "" && rel != "." {
+			continue
+		}
+		allInstrs(fn, func(in ssa.Instruction) {
+			ta, ok := in.(*ssa.TypeAssert)
+			if !ok {
+				return
+			}
+			want, ok := ta.AssertedType.Underlying().(*types.Interface)
+			if !ok || want.NumMethods() == 0 {
+				return
+			}
+			if !types.Identical(ta.X.Type(), objT.Type()) {
+				return
+			}
+			if _, named := types.Unalias(ta.AssertedType).(*types.Named); named && typePkgPath(ta.AssertedType) == modPath {
+				return // a named interface of the module: implementers are checked by the compiler where they are used
+			}
+			n++
+			perFn[fn]++
+			key := fmt.Sprintf("%s/assert#%d", fnKey(fn), perFn[fn])
+			some, drift := false, ""
+			for _, it := range impls {
+				if types.Implements(it, want) {
+					some = true
+					continue
+				}
+				ms := types.NewMethodSet(it)
+				all := true
+				for i := 0; i < want.NumMethods(); i++ {
+					if ms.Lookup(want.Method(i).Pkg(), want.Method(i).Name()) == nil {
+						all = false
+					}
+				}
+				if all {
+					drift = types.TypeString(it, func(*types.Package) string { return "" })
+				}
+			}
+			names := []string{}
+			for i := 0; i < want.NumMethods(); i++ {
+				names = append(names, want.Method(i).Name())
+			}
+			switch {
+			case !some && drift != "":
+				r.Bad("C14.G6", key, ta.Pos(), "%s asserts the object to an interface with method(s) %s, and %s has method(s) of that name with another signature: the assertion silently fails, so the accessor reports that the object has no such method for every key of that type", fnKey(fn), strings.Join(names, ", "), drift)
+			case !some:
+				r.Bad("C14.G6", key, ta.Pos(), "%s asserts the object to an interface with method(s) %s that no object type implements: the accessor can never succeed", fnKey(fn), strings.Join(names, ", "))
+			default:
+				r.OK("C14.G6", key, ta.Pos(), "interface {%s} is implemented by an object type", strings.Join(names, ", "))
+			}
+		})
+	}
+	if n == 0 {
+		r.Unk("C14.G6", "assertions", token.NoPos, "no structural assertion on a transported object found")
 	}
 }
